@@ -39,6 +39,12 @@ pub fn install_panic_hook() {
     }));
 }
 
+/// VERIF_ECHO_LOG=1: every API call / event log line goes to stderr (debugging aid for `show`)
+fn echo_log() -> bool {
+    static ON: std::sync::OnceLock<bool> = std::sync::OnceLock::new();
+    *ON.get_or_init(|| std::env::var("VERIF_ECHO_LOG").is_ok())
+}
+
 pub fn last_panic() -> String {
     LAST_PANIC.with(|p| p.borrow().clone())
 }
@@ -319,6 +325,9 @@ impl World {
         self.seq += 1;
         let line = format!("#{} t={} {}", self.seq, self.sim_us, s);
         self.log_hash = (self.log_hash ^ fnv1a(line.as_bytes())).wrapping_mul(0x0100_0000_01b3);
+        if echo_log() {
+            eprintln!("{}", line);
+        }
         if let Some(l) = &mut self.log {
             l.push(line);
         }
@@ -409,7 +418,12 @@ impl World {
             Event::Errors(e) => format!("Errors({:?})", err_infos(e).iter().map(|x| x.text.clone()).collect::<Vec<_>>()),
             Event::Input(p, c) => format!("Input({:?},{})", p, c),
             Event::Print(s) => format!("Print({:?})", s),
-            Event::List((s, c)) => format!("List({:?},{:?})", s, c),
+            Event::List((s, c)) => {
+                // underlined ranges come in the linker's hash order: neutralise it
+                let mut c: Vec<(usize, usize)> = c.iter().map(|r| (r.start, r.end)).collect();
+                c.sort();
+                format!("List({:?},{:?})", s, c)
+            }
             Event::Running => "Running".to_string(),
             Event::Stopped => "Stopped".to_string(),
             Event::Load(s) => format!("Load({:?})", s),
@@ -642,8 +656,9 @@ impl World {
                 }
                 Event::List((s, cols)) => {
                     self.true_col = 0;
-                    self.events
-                        .push(Ev::List(s, cols.iter().map(|c| (c.start, c.end)).collect()));
+                    let mut cols: Vec<(usize, usize)> = cols.iter().map(|c| (c.start, c.end)).collect();
+                    cols.sort();
+                    self.events.push(Ev::List(s, cols));
                     if io.intrs.contains(&When::AfterList(lists_seen)) {
                         self.interrupt();
                         out.intr_fired += 1;
